@@ -26,6 +26,8 @@
 
 package info
 
+import "strings"
+
 // PageNumbersState is struct that returned by getPageNumbersState() after it
 // has checked if the given list of PageLinkInfo's and PageInfo's are adjacent
 // and consecutive, and if there's a gap in the list.
@@ -55,6 +57,10 @@ func (pns *PageNumbersState) isPageNumberSequence(ascendingNumbers []*PageInfo) 
 			}
 			hasPlainNum = true
 		} else if hasPlainNum && pns.NextPagingURL == "" {
+			if strings.HasPrefix(page.URL, "javascript:") {
+				// The page after the current one has no fetchable URL.
+				return false
+			}
 			pns.NextPagingURL = page.URL
 		}
 	}
